@@ -368,6 +368,11 @@ func driveC19(o opts) error {
 		// what the decoder sees (the corruptor may have put Go ints etc.)
 		var seen interface{}
 		_ = json.Unmarshal(b, &seen)
+		// the decoders keep one spelling per uuid (["uuid", x] is lower-cased, repair d3cffdb); the model's symbols have
+		// no case, so the random stream does not write capitals under that tag (the lower-casing itself is checked by
+		// the regression "uuid in upper case" of C09)
+		seen = lowerUUIDTagged(seen)
+		b, _ = json.Marshal(seen)
 		note("decode "+t.name, seen)
 		out, class, msg := guarded(func() (interface{}, error) { return t.decode(b) })
 		w.Count(fmt.Sprintf("decode:%s:%s", t.name, []string{"value", "error", "panic"}[class]))
@@ -936,4 +941,28 @@ func withMember(obj map[string]interface{}, member string, v interface{}) map[st
 	}
 	out[member] = v
 	return out
+}
+
+// lowerUUIDTagged lower-cases the text of every two-element array whose first element is "uuid".
+func lowerUUIDTagged(x interface{}) interface{} {
+	switch v := x.(type) {
+	case []interface{}:
+		out := make([]interface{}, len(v))
+		for i, e := range v {
+			out[i] = lowerUUIDTagged(e)
+		}
+		if len(out) == 2 && out[0] == "uuid" {
+			if t, ok := out[1].(string); ok {
+				out[1] = strings.ToLower(t)
+			}
+		}
+		return out
+	case map[string]interface{}:
+		out := map[string]interface{}{}
+		for k, e := range v {
+			out[k] = lowerUUIDTagged(e)
+		}
+		return out
+	}
+	return x
 }
